@@ -24,6 +24,8 @@ def field_options(f):
             continue
         if isinstance(v, (BaseField, Config)) or callable(v):
             continue
+        if k.startswith("_") and k not in ("_key", "_name", "_dynamic", "_env_prefix"):
+            continue          # private state (caches, lazily computed attributes) is not a field option
         out.append((k, canon(v) if not isinstance(v, (list, dict, tuple)) else repr(v)))
     return out
 
@@ -94,10 +96,24 @@ class IsolationScenario(StateScenario):
             h["sd"]["root"]["fields"].append({"kind": "list", "key": "LL", "o": {"default": {"$call": [[1], {"a": [2]}], "$shared": True}}})
             h["sd"]["root"]["fields"].append({"kind": "dict", "key": "DL", "o": {"default": dflt},
                                               "kf": {"kind": "string", "o": {}}, "vf": {"kind": "list", "o": {}}})
+        # an include field plus untyped list / dict / any fields whose values come from one included file that every
+        # configuration of the schema loads ("no sequence of ... loads ... on one configuration changes another")
+        if rng.random() < 0.4:
+            taken = {f["key"] for f in h["sd"]["root"]["fields"]}
+            if not taken & {"INC", "UL", "UD", "UA"}:
+                h["sd"]["root"]["fields"] += [{"kind": "include", "key": "INC", "o": {}}, {"kind": "list", "key": "UL", "o": {}},
+                                              {"kind": "dict", "key": "UD", "o": {}}, {"kind": "any", "key": "UA", "o": {}}]
+                h["inc"] = {"UL": [1, [2], {"k": [3]}], "UD": {"a": [1], "b": {"c": 2}}, "UA": rng.choice([[7, [8]], {"x": [9]}])}
         return h
+
+    INC_FORMATS = ("json", "yaml", "bson", "pickle")
 
     def start(self, header, world, rec):
         st = super().start(header, world, rec)
+        if header.get("inc"):
+            for fmt in self.INC_FORMATS:
+                world.poke("/inc/shared." + fmt, ops.write_doc(fmt, header["inc"], {}))
+                world.poke("/data/main-inc." + fmt, ops.write_doc(fmt, {"INC": "/inc/shared." + fmt}, {}))
         st.Bc = schema.build(st.sd)
         st.control = st.Bc.root()
         st.control0 = snapshot.snap(st.control, None)
@@ -111,14 +127,27 @@ class IsolationScenario(StateScenario):
         return st
 
     def gen_op(self, st, rng):
+        if st.h.get("inc") and rng.random() < 0.15:
+            return {"op": "load_inc", "cfg": rng.randrange(2), "fmt": rng.choice(self.INC_FORMATS)}
         op = super().gen_op(st, rng)
         op["cfg"] = 1 if rng.random() < st.h.get("p_b1", 0) else 0
         return op
+
+    def do_load_inc(self, st, cfg, c, op, rec):
+        """Each configuration loads a main document that names the same, unchanged include file."""
+        _, err = self._call(lambda: cfg.load("/data/main-inc." + op["fmt"], op["fmt"]))
+        rec.log("load_inc", c, op["fmt"], type(err).__name__ if err else "ok")
+        if err is None:
+            rec.probe("include-loaded:cfg%d" % c)
 
     def gen_deep(self, st, rng, cfg, tgts, cfgpaths, owners):
         """In-place mutation of a mutable value *inside* a typed container value."""
         cands = [t for t in tgts if t.node["kind"] == "dict" and (t.node.get("vf") or {}).get("kind") == "list" and isinstance(t.value, dict) and t.value]
         cands += [t for t in tgts if t.path == "LL" and isinstance(t.value, list) and t.value]
+        plain = [t for t in tgts if t.path in ("UL", "UD", "UA") and type(t.value) in (list, dict) and t.value]
+        if plain and (not cands or rng.random() < 0.5):
+            t = rng.choice(plain)
+            return {"op": "deep", "path": t.path, "plain": True, "inner": rng.random() < 0.5, "v": rng.choice([9, "z", [3]])}
         if not cands:
             return None
         t = rng.choice(cands)
@@ -140,6 +169,8 @@ class IsolationScenario(StateScenario):
         before = [(n, cfg, snapshot.snap(cfg, None)) for n, cfg in self.others(st, c)]
         if op["op"] == "deep":
             self.do_deep(st, st.cfgs[c], c, op, rec)
+        elif op["op"] == "load_inc":
+            self.do_load_inc(st, st.cfgs[c], c, op, rec)
         else:
             super().apply(st, op, rec)
         what = op["op"] + (":" + op["name"] if "name" in op else "")
@@ -180,6 +211,24 @@ class IsolationScenario(StateScenario):
         return "?"
 
     def do_deep(self, st, cfg, c, op, rec):
+        if op.get("plain"):
+            # in-place mutation of the value of an untyped list / dict / any field (or of a mutable value inside it)
+            d = ops.resolve(cfg, op["path"])
+            if type(d) not in (list, dict) or not d:
+                rec.log("deep", "skip")
+                return
+            tgt = d
+            if op.get("inner"):
+                inner = [x for x in (d if isinstance(d, list) else d.values()) if type(x) in (list, dict)]
+                if inner:
+                    tgt = inner[0]
+            if isinstance(tgt, list):
+                tgt.append(op["v"])
+            else:
+                tgt["added"] = op["v"]
+            rec.log("deep", op["path"], "plain")
+            rec.probe("deep-mutation:untyped")
+            return
         try:
             d = ops.resolve(cfg, op["path"])
             inner = list.__getitem__(d, 0) if isinstance(d, list) else dict.__getitem__(d, dec(op["k"]))
